@@ -638,3 +638,31 @@ def canonical_imports(tree: ast.AST) -> int:
 
     T().visit(tree)
     return len(mapping)
+
+
+# ---------------------------------------------------------------------------------------------------------------------
+# Written-out increments: `n = n + 1`, `n = 1 + n`, `self.k = self.k - 2` are read as the augmented assignments.
+
+
+def augment(tree: ast.AST) -> int:
+    n = 0
+    for node in ast.walk(tree):
+        for fld in ('body', 'orelse', 'finalbody'):
+            blk = getattr(node, fld, None)
+            if not isinstance(blk, list):
+                continue
+            for i, st in enumerate(blk):
+                if not (isinstance(st, ast.Assign) and len(st.targets) == 1 and isinstance(st.targets[0], (ast.Name, ast.Attribute)) and isinstance(st.value, ast.BinOp) and isinstance(st.value.op, (ast.Add, ast.Sub))):
+                    continue
+                t = ast.unparse(st.targets[0])
+                l, r = st.value.left, st.value.right
+                if isinstance(l, (ast.Name, ast.Attribute)) and ast.unparse(l) == t and not any(isinstance(x, (ast.Name, ast.Attribute)) and ast.unparse(x) == t for x in ast.walk(r)):
+                    other = r
+                elif isinstance(st.value.op, ast.Add) and isinstance(r, (ast.Name, ast.Attribute)) and ast.unparse(r) == t and isinstance(l, ast.Constant) and isinstance(l.value, (int, float)) and not isinstance(l.value, bool):
+                    other = l
+                else:
+                    continue
+                tgt = st.targets[0]
+                blk[i] = ast.copy_location(ast.AugAssign(target=tgt, op=st.value.op, value=other), st)
+                n += 1
+    return n
